@@ -247,6 +247,7 @@ package inode
 //@   allocates buf.Buf, marshal.Enc, marshal.Dec, cell:uint64
 //@   modifies buf.Buf.dirty, []uint8@buf.Buf.Data, op.freeBnums, []uint64@alloctxn.AllocTxn.freeBnums, zeroed
 //@   ensures [F3-rootornull] result == 0 || result == root @C05
+//@   ensureslocal [F3-slot-cleared] nxtroot != 0 && (level == 1 || ind == 0) ==> le64(b.Data, boff) == 0 @C04 @C05 @C12
 //@   ensures [F3-exact] root != 0 ==> result == ite(level == 0 || bn == 0, root, 0) @C05
 //@   ensures listsValid(op) && listsStable(op)
 
